@@ -14,7 +14,7 @@ from ..core import Discard, Violation, expect_round, guard
 from ..runner import Sub
 
 PROPERTY = "C01"
-RULE = ("fit specs over xy / indexed / hist / unbinned x all built-in cost identifiers; non-trivial = >= 2 enabled sources of different "
+RULE = ("sub-check long: every case (20 or more points) counts as non-trivial; sub-check cost: fit specs over xy / indexed / hist / unbinned x all built-in cost identifiers; non-trivial = >= 2 enabled sources of different "
         "kinds, or a model-referenced / x-axis / matrix / relative source, or >= 1 constraint; distinct by hash of (type, cost identifier, "
         "source kinds+flags+order, constraint kinds)")
 ASSUMPTIONS = [
@@ -61,6 +61,13 @@ def strat(draw, tier="quick"):
 
 def _strategy(tier):
     return strat(tier)
+
+
+@st.composite
+def strat_long(draw, tier="quick"):
+    cost = draw(st.sampled_from(["chi2", "chi2", "chi2_covariance", "chi2_pointwise", "nll_gaussian", "gauss_approximation" if False else "chi2"]))
+    spec = draw(S.xy_long_spec(costs=(cost,), n_points=(20, 120) if tier == "quick" else (20, 400)))
+    return {"spec": spec, "points": draw(_points()), "fit_between": draw(st.booleans()), "shuffle": 0.5}
 
 
 def _ensure_pd(spec):
@@ -165,6 +172,9 @@ def run(case):
         labels.add("disabled_source")
     kinds = {(s["kind"], s["ref"], s.get("axis"), s["relative"]) for s in en}
     nontrivial = len(kinds) >= 2 or any(s["ref"] == "model" or s.get("axis") == "x" or s["kind"] == "matrix" or s["relative"] for s in en) or bool(spec["constraints"])
+    if spec["type"] == "xy" and len(spec["x"]) > 12:
+        labels.add("many_points")
+        nontrivial = True
     implicit = spec["cost"] == "chi2" and not srcs
     pts = []
     for k_, pt in enumerate(case["points"]):
@@ -235,4 +245,5 @@ def fs_key(spec):
 
 SUBS = [
     Sub("cost", _strategy, run, quick=4000, thorough=120000, about="cost_function_value / total_cov_mat / total_error / model vs numpy reference"),
+    Sub("long", lambda tier: strat_long(tier), run, quick=480, thorough=12000, about="the same with many data points (20-120, thorough: -400) and any unit of y"),
 ]
